@@ -11,13 +11,22 @@ A *case* is one message flow over circuit A plus at most one fault:
            reply  outside -> O            (backward leg only)
            ping   O -> X ping, X -> O pong
            test   O -> X test-request, X -> O test-response
+           e2e-ds / e2e-sd   downloader -> seeder / seeder -> downloader over a linked hidden-service circuit
+           <flow>@<shape>    the same with a payload that is not BitTorrent-shaped: opaque bytes, 00 01.. / 00 02..
+                             (looks like IPv8), the tunnel overlay's own prefix + a cell message id (pfx1,2,4,6,8)
+           retire            one party (exit, exit with destroy, last relay, originator) starts removing its part of
+                             the circuit; a reply from outside and one more outbound cell are injected 0 / 2.5 / 4.9 /
+                             5.1 s later and exactly k = 0..6 loop iterations after the 5 s grace timer came due
     fault  none (clean run with the complete oracle) or, applied to the cell of the flow that is in flight on link
            `link` of leg `leg`:  xor(pos, mask) | trunc | append | splice(B|C) | foreign(variant) | reflect |
            crosslink(j)
 
 Oracle (see notes/C04.md): clean runs - exact single delivery with the right destination/origin/circuit; on every link
 the body has exactly h-link layers and peels to the reference plaintext with the originator's and with the nodes' own
-session keys; no two cells share a body or a 16-byte window; plaintext/marker never on the wire.  Fault runs - the
+session keys; no two cells share a body or a 16-byte window; plaintext/marker never on the wire; exactly the expected
+cell-message handlers ran (tunnelled data is never interpreted as a control message); routing tables unchanged.
+Retirement runs - every cell seen on a link of the circuit is properly layered, payloads never readable, deliveries
+bit-exact (nothing has to be delivered).  Fault runs - the
 faulty datagram has no effect anywhere (outside sockets, on_raw_data, ping/test completion), is not forwarded in the
 forward direction, is never re-emitted with the same body, no exception reaches the loop; the untouched original
 delivered afterwards still completes the flow exactly once.
@@ -75,6 +84,13 @@ OVH = len(generate_session_keys(b"\x00" * 64).encrypt_str(b"", FORWARD))   # byt
 STRICT_RELAY_EARLY = False
 
 MAX_BAD_PER_GROUP = 3
+KNOWN_RELAY_EARLY = "fault-delivered|alter:relay_early-flag-unauthenticated"   # listed in known_findings.json
+
+RETIRE_VARIANTS = ("exit", "exit-destroy", "relay", "origin")
+RETIRE_OFFSETS = (0.0, 2.5, 4.9, 5.1)       # seconds after the removal started (remove_tunnel_delay is 5 s)
+RETIRE_ITERATIONS = 7                       # and: exactly k loop iterations after the 5 s timer came due, k = 0..6
+EXPECTED_HANDLERS = {"data": [("X", 1)], "reply": [("O", 1)], "ping": [("X", 6), ("O", 7)],
+                     "test": [("X", 19), ("O", 20)], "e2e-ds": [("S", 1)], "e2e-sd": [("D", 1)]}
 
 
 class RecTunnel(TunnelCommunity):
@@ -126,7 +142,7 @@ class Flow:
     """State of one launched flow."""
 
     def __init__(self, kind: str, size: int, dk: str) -> None:
-        self.kind = kind
+        self.kind, _, self.shape = kind.partition("@")     # "data@pfx1": flow data, payload shape pfx1
         self.size = size
         self.dk = dk
         self.pt: dict[str, bytes | None] = {"f": None, "b": None}   # reference plaintext message per leg
@@ -137,6 +153,7 @@ class Flow:
         self.urandom_mark = 0
         self.expected_dest = None
         self.expected_origin = None
+        self.tables0 = None
         self.raw_target: tuple | None = None   # (node name, Circuit object) whose on_raw_data must see the payload
 
 
@@ -149,6 +166,8 @@ class Bench:
         self.w = self.make_world()
         self.urandom_log: list[bytes] = []
         self.last_held_len = -1
+        self.handler_log: list = []
+        self.spent = False          # a retire case destroys circuit A: the world cannot be reused
         self._orig_read = seams.URANDOM.read
         seams.URANDOM.read = self._recording_read
         try:
@@ -217,7 +236,25 @@ class Bench:
         self.foreign_keys = [generate_session_keys(bytes([0xC4 + i]) * 64) for i in range(3)]
         if w.loop.exceptions:
             raise HarnessError(f"exceptions during the fault-free build: {w.loop.exceptions[:1]}")
+        self.watch_handlers()
         self.reset_logs()
+
+    def watch_handlers(self) -> None:
+        """Record every dispatch to a cell-message handler (decode_map_private) of every overlay."""
+        for name, ov in self.w.ov.items():
+            for mid, fn in list(ov.decode_map_private.items()):
+                ov.decode_map_private[mid] = self._recorder(name, mid, fn)
+
+    def _recorder(self, name: str, mid: int, fn):  # noqa: ANN001, ANN202
+        def handler(*a, **kw):  # noqa: ANN002, ANN003, ANN202
+            self.handler_log.append((name, mid))
+            return fn(*a, **kw)
+        return handler
+
+    def payload_for(self, fl: Flow, salt: int) -> bytes:
+        if fl.shape:
+            return ref.shaped_payload(fl.shape, salt, self.prefix)
+        return ref.payload(fl.size, salt)
 
     def close(self) -> None:
         if seams.URANDOM.__dict__.get("read") is not None:
@@ -232,6 +269,7 @@ class Bench:
         del w.undeliverable[:]
         del w.loop.outside_log[:]
         del self.urandom_log[:]
+        del self.handler_log[:]
         for t in w.loop.transports:
             del t.sent[:]
         for ov in w.ov.values():
@@ -286,12 +324,13 @@ class Bench:
             es.is_allowed = lambda data: True     # no 0/1-byte datagram can pass the exit policy (C06's subject)
         elif "is_allowed" in es.__dict__:
             del es.is_allowed
+        kind = fl.kind
         if kind == "data":
-            fl.payload = ref.payload(size, self.salt)
+            fl.payload = self.payload_for(fl, self.salt)
             dest = DESTS[dk]
             fl.pt["f"] = ref.msg_data(dest, ref.ZERO, fl.payload)
             fl.expected_dest = ((RESOLVED if dk == "dom" else dest[1], dest[2]), "v6" if dk == "v6" else "v4")
-            fl.secrets = [fl.payload] if size >= 8 else []
+            fl.secrets = [fl.payload] if len(fl.payload) >= 8 else []
             w.send_out("O", c, _addr_obj(dest), fl.payload)
         elif kind == "reply":
             fl.payload = ref.payload(size, self.salt + 1)
@@ -385,7 +424,7 @@ class Bench:
     def check_clean(self, fl: Flow) -> tuple[list, str]:
         w, h = self.w, self.h
         v: list = []
-        tag = f"{fl.kind}"
+        tag = fl.kind
         self.pump()
         legs = self.legs(fl.kind)
         if fl.kind == "test":
@@ -451,11 +490,19 @@ class Bench:
                 v.append(("clean:plaintext-on-wire", f"h={h} {tag}: marker/plaintext message readable in the datagram "
                           f"{dg.src[0]}->{dg.dst[0]}"))
         n, bad = self.deliveries(fl)
+        what = f"h={h} size={len(fl.payload)} {fl.dk}{' shape=' + fl.shape if fl.shape else ''}"
         for b in bad:
-            v.append((f"clean:wrong-delivery|{tag}", f"h={h} size={fl.size} {fl.dk}: {b}"))
+            v.append((f"clean:wrong-delivery|{tag}", f"{what}: {b}"))
         if n != 1:
             v.append((f"clean:delivered-{'never' if n == 0 else 'twice'}|{tag}",
-                      f"h={h} size={fl.size} {fl.dk}: flow completed {n} times, expected exactly once"))
+                      f"{what}: flow completed {n} times, expected exactly once"))
+        if sorted(self.handler_log) != sorted(EXPECTED_HANDLERS[fl.kind]):
+            v.append(("clean:handler-calls", f"{what} {tag}: cell-message handlers that ran (node, msg id): "
+                      f"{self.handler_log}; expected exactly {EXPECTED_HANDLERS[fl.kind]} - tunnelled data must "
+                      f"never be interpreted as a control message"))
+        if w.tables() != fl.tables0:
+            v.append(("clean:table-change", f"{what} {tag}: circuit/relay/exit tables changed from {fl.tables0} to "
+                      f"{w.tables()}"))
         v.extend(self.loop_exceptions(tag, "clean"))
         return v, f"delivered-{n}"
 
@@ -469,6 +516,123 @@ class Bench:
         name = type(e).__name__ if e is not None else "message"
         txt = ("".join(traceback.format_exception(e))[-900:] if e is not None else str(excs[0].get("message")))
         return [(f"loop-exception|{name}|{phase}", f"{len(excs)} exception(s) reached the event loop ({tag}): {txt}")]
+
+    # -- retirement -----------------------------------------------------------------------------------------------------
+    def run_retire(self, size: int, dk: str, variant: str, offset) -> tuple[list, str]:  # noqa: ANN001
+        """
+        Circuit A has carried traffic (exit socket enabled, transports open).  One party starts removing its part of
+        the circuit with the default remove_tunnel_delay; `offset` seconds later (or, "iK", exactly K loop iterations
+        after the 5 s grace timer came due) a reply arrives from outside on every transport of the exit socket that is
+        still open, and the originator - if it still regards the circuit as READY - sends one more data cell.
+        Whatever then appears on a link of circuit A must be a properly layered cell, and whatever is delivered must
+        be bit-exact; nothing has to be delivered (the circuit is going away).
+        """
+        w, h = self.w, self.h
+        self.spent = True
+        self.reset_logs()
+        del w.loop.exceptions[:]
+        names, addr, cids = self.names["A"], self.addr["A"], self.link_cid["A"]
+        c, es = self.circ["A"], self.exit_sock["A"]
+        ov_o, ov_x = w.ov["O"], w.ov["X"]
+        t4, t6 = es.transport_ipv4, es.transport_ipv6
+        p_out, p4, p6 = ref.payload(size, self.salt), ref.payload(size, self.salt + 1), ref.payload(size, self.salt + 2)
+        src4, src6 = DESTS["v4"], DESTS["v6"]
+        if variant == "exit":            # what do_remove does for an idle / old / over-used exit socket
+            w.nodes["X"].run(ov_x.remove_exit_socket, cids[-1], "no activity")
+        elif variant == "exit-destroy":
+            w.nodes["X"].run(ov_x.remove_exit_socket, cids[-1], "traffic limit exceeded", destroy=1)
+        elif variant == "relay":         # the relay next to the exit forgets both directions, tells nobody
+            if h < 2:
+                raise HarnessError("no relay in a 1-hop circuit")
+            ov_r = w.ov[names[h - 1]]
+            w.nodes[names[h - 1]].run(ov_r.remove_relay, cids[h - 2], "no activity")
+            w.nodes[names[h - 1]].run(ov_r.remove_relay, cids[h - 1], "no activity")
+        elif variant == "origin":
+            w.nodes["O"].run(ov_o.remove_circuit, c.circuit_id, "unneeded", destroy=1)
+        else:
+            raise HarnessError(variant)
+        t0 = w.loop.time()
+        self.pump()                      # destroy messages travel now
+        stepped = isinstance(offset, str)
+        if stepped:
+            k = int(offset[1:])
+            w.run_for(4.999)
+            seams.CLOCK.set(t0 + w.ov["X"].settings.remove_tunnel_delay)
+            for _ in range(k):
+                w.loop.iteration()
+            phase = "closing"
+        else:
+            w.run_for(float(offset))
+            phase = "grace" if offset < w.ov["X"].settings.remove_tunnel_delay else "after"
+        injected = []
+        if t4 is not None and not t4.closed:
+            t4.inject(p4, (src4[1], src4[2]))
+            injected.append("v4")
+        if t6 is not None and not t6.closed:
+            t6.inject(p6, (src6[1], src6[2], 0, 0))
+            injected.append("v6")
+        w.loop.iteration()               # the datagrams from outside are handled in this very iteration
+        self.pump()
+        sent = False
+        if c.circuit_id in ov_o.circuits and c.state == CIRCUIT_STATE_READY:
+            w.send_out("O", c, _addr_obj(src4), p_out)
+            self.pump()
+            sent = True
+        w.run_for(1.0)
+        where = (f"h={h} retirement by {variant}, probe {offset if stepped else f'{offset}s'} after it started "
+                 f"(replies injected on {injected or 'no open socket'}, originator {'sent' if sent else 'did not send'})")
+        v: list = []
+        link_of = {}
+        for i in range(h):
+            link_of[(addr[i], addr[i + 1], cids[i])] = ("f", i)
+            link_of[(addr[i + 1], addr[i], cids[i])] = ("b", i)
+        expected = {"f": {ref.msg_data(src4, ref.ZERO, p_out)},
+                    "b": {ref.msg_data(ref.ZERO, src4, p4), ref.msg_data(ref.ZERO, src6, p6)}}
+        n_cells = 0
+        for dg in w.wire_log:
+            if ref.MARKER in dg.data or any(len(p) >= 8 and p in dg.data for p in (p_out, p4, p6)):
+                v.append((f"retire:plaintext-on-wire|{phase}", f"{where}: the payload is readable in the datagram "
+                          f"{dg.src[0]}->{dg.dst[0]} ({len(dg.data)} bytes)"))
+            f = ref.parse_cell(self.prefix, dg.data)
+            if f is None or (tuple(dg.src), tuple(dg.dst), f[0]) not in link_of:
+                continue
+            leg, link = link_of[(tuple(dg.src), tuple(dg.dst), f[0])]
+            n_cells += 1
+            if f[1]:
+                v.append((f"retire:plaintext-flag|{phase}", f"{where}: cell with the plaintext flag on {leg}{link}"))
+                continue
+            try:
+                msg = f[3]
+                for key in self.okeys["A"][link:]:
+                    msg = key.decrypt_str(msg, FORWARD if leg == "f" else BACKWARD)
+            except (ValueError, RuntimeError) as e:
+                v.append((f"retire:cell-not-layered|{phase}", f"{where}: the {len(f[3])}-byte body on {leg}{link} "
+                          f"({dg.src[0]}->{dg.dst[0]}) does not carry the {h - link} layer(s) of the remaining hops "
+                          f"({type(e).__name__}: {e})"))
+                continue
+            if not ((len(msg) == 3 and msg[0] in (6, 7)) or msg in expected[leg]):
+                v.append((f"retire:unexpected-message|{phase}", f"{where}: cell on {leg}{link} peels to an unexpected "
+                          f"{len(msg)}-byte message starting {msg[:1].hex()}"))
+        n_out = n_raw = 0
+        for tr, data, a in w.loop.outside_log:
+            if tr is t4 and data == p_out and tuple(a) == (src4[1], src4[2]) and n_out == 0:
+                n_out += 1
+            else:
+                v.append((f"retire:wrong-delivery|{phase}", f"{where}: an outside socket emitted {len(data)} bytes to "
+                          f"{tuple(a)} ({'same' if data == p_out else 'DIFFERENT'} bytes, delivery #{n_out + 1})"))
+        seen = set()
+        for name, ov in w.ov.items():
+            for circuit, origin, data in ov.raw_log:
+                ok4 = data == p4 and type(origin) is UDPv4Address and tuple(origin) == (src4[1], src4[2])
+                ok6 = data == p6 and type(origin) is UDPv6Address and tuple(origin) == (src6[1], src6[2])
+                if name == "O" and circuit is c and (ok4 or ok6) and (ok4, ok6) not in seen:
+                    seen.add((ok4, ok6))
+                    n_raw += 1
+                else:
+                    v.append((f"retire:wrong-delivery|{phase}", f"{where}: {name}.on_raw_data(origin={origin!r}, "
+                              f"{len(data)} bytes) is not one of the injected replies, once, on circuit A"))
+        v.extend(self.loop_exceptions("retire", f"retire-{phase}"))
+        return v, f"{'+'.join(injected) or 'closed'}-sent{int(sent)}-out{n_out}-raw{n_raw}-cells{n_cells}"
 
     # -- faults -------------------------------------------------------------------------------------------------------
     def fault_datagram(self, fl: Flow, held: Datagram, leg: str, link: int, fault: list):  # noqa: ANN201
@@ -530,9 +694,13 @@ class Bench:
         """case = [flow, size, dest-kind, leg, link, fault|None] -> (violations [(key, what)], outcome class)."""
         kind, size, dk, leg, link, fault = case
         w, h = self.w, self.h
+        if kind == "retire":
+            return self.run_retire(size, dk, leg, link)
         self.reset_logs()
         del w.loop.exceptions[:]
+        tables0 = w.tables()
         fl = self.launch(kind, size, dk)
+        fl.tables0 = tables0
         if fault is None:
             return self.check_clean(fl)
         family = {"xor": "alter", "trunc": "alter", "append": "alter", "splice": "splice", "crosslink": "splice",
@@ -542,7 +710,7 @@ class Bench:
         held = self.pump(capture=self.link_pair("A", leg, link))
         if held is None:
             return [("after-fault:original-lost", f"h={h} {kind}: no cell appeared on link {link} of leg {leg}")], "x"
-        if kind == "test" and leg == "b":
+        if fl.kind == "test" and leg == "b":
             data = self.test_response_data(fl)
             fl.pt["b"] = ref.msg_test_response(fl.ident, data if data is not None else b"")
         self.last_held_len = len(held.data)
@@ -712,6 +880,7 @@ class E2EBench(Bench):
         self.foreign_keys = [generate_session_keys(bytes([0xC4 + i]) * 64) for i in range(3)]
         if w.loop.exceptions:
             raise HarnessError(f"exceptions during the fault-free e2e build: {w.loop.exceptions[:1]}")
+        self.watch_handlers()
         self.reset_logs()
 
     def layers(self, link: int) -> int:
@@ -744,19 +913,20 @@ class E2EBench(Bench):
         fl = Flow(kind, size, dk)
         zero = ("0.0.0.0", 0)
         fl.expected_origin = UDPv4Address(*zero)
+        kind = fl.kind
         if kind == "e2e-ds":
-            fl.payload = ref.payload(size, self.salt)
+            fl.payload = self.payload_for(fl, self.salt)
             fl.pt["f"] = ref.msg_data(ref.ZERO, ref.ZERO, fl.payload)
             fl.raw_target = ("S", self.cs)
             ov, c, name = w.ov["D"], self.ce, "D"
         elif kind == "e2e-sd":
-            fl.payload = ref.payload(size, self.salt + 1)
+            fl.payload = self.payload_for(fl, self.salt + 1)
             fl.pt["b"] = ref.msg_data(ref.ZERO, ref.ZERO, fl.payload)
             fl.raw_target = ("D", self.ce)
             ov, c, name = w.ov["S"], self.cs, "S"
         else:
             raise HarnessError(kind)
-        fl.secrets = [fl.payload] if size >= 8 else []
+        fl.secrets = [fl.payload] if len(fl.payload) >= 8 else []
         w.nodes[name].run(ov.send_data, c.hop.address, c.circuit_id, zero, zero, fl.payload)
         return fl
 
@@ -768,6 +938,7 @@ def make_bench(h, seed: int) -> Bench:  # noqa: ANN001
 # ---- enumeration ----------------------------------------------------------------------------------------------------
 
 def cell_len(h: int, kind: str, leg: str, link: int, size: int, dk: str) -> int:
+    kind = kind.partition("@")[0]
     alen = {"v4": 7, "v6": 19, "dom": 5 + len(DESTS["dom"][1])}
     if h == "e2e":
         return ref.HEADER_LEN + 15 + size + OVH * E2E_LAYERS[link]
@@ -843,6 +1014,22 @@ def groups(thorough: bool) -> list:
                 for size in test_xor_sizes:
                     out.append([h, "test", size, "v4", leg, link, "xor"])
                     out.append([h, "test", size, "v4", leg, link, "misc"])
+    # retirement: one party removes its part of circuit A; probes inside/after the grace period and around its end
+    for h in (1, 2, 3):
+        for variant in RETIRE_VARIANTS:
+            if variant == "relay" and h < 2:
+                continue
+            offs = list(RETIRE_OFFSETS) + ([1.0, 4.999, 5.0, 5.001, 7.4, 10.0] if thorough else [])
+            if variant != "relay":     # (a relay that forgets the circuit tells nobody: the exit socket stays)
+                offs += [f"i{k}" for k in range(RETIRE_ITERATIONS + (5 if thorough else 0))]
+            for size in ((24, 64, 1400) if thorough else (64,)):
+                for off in offs:
+                    out.append([h, "retire", size, "v4", variant, off, "clean"])
+        # payloads that look like the tunnel overlay's own packets, outbound (every exit forwards its own prefix)
+        for shape in ref.SHAPES:
+            if shape.startswith("pfx"):
+                out.append([h, f"data@{shape}", ref.SHAPE_SIZE[shape], "v4", "f", 0, "clean"])
+                out.append([h, f"data@{shape}", ref.SHAPE_SIZE[shape], "v4", "f", h - 1, "misc"])
     # end-to-end (hidden service) circuit: D -> N3 -> rendezvous -> S and back
     if thorough:
         e2e_xor = sorted(set(range(0, 65)) | set(range(64, 1401, 64)) | set(QUICK_SIZES) | {1399})
@@ -856,11 +1043,20 @@ def groups(thorough: bool) -> list:
                 out.append(["e2e", kind, size, "v4", leg, link, "xor"])
             for size in QUICK_SIZES:
                 out.append(["e2e", kind, size, "v4", leg, link, "misc"])
+        # payload shapes: opaque bytes, IPv8-looking bytes, the overlay's own prefix + a cell message id
+        for shape in ref.SHAPES:
+            out.append(["e2e", f"{kind}@{shape}", ref.SHAPE_SIZE[shape], "v4", leg, 0, "clean"])
+            for link in range(3):
+                out.append(["e2e", f"{kind}@{shape}", ref.SHAPE_SIZE[shape], "v4", leg, link, "misc"])
+                if thorough or shape in ("opaque", "v1", "pfx1", "pfx2"):
+                    out.append(["e2e", f"{kind}@{shape}", ref.SHAPE_SIZE[shape], "v4", leg, link, "xor"])
     return out
 
 
 def group_cost(g: list, thorough: bool) -> int:
     h, kind, size, dk, leg, link, fclass = g
+    if kind == "retire":
+        return 150          # needs a world of its own
     if fclass == "clean":
         return 2 + size // 200
     if fclass == "misc":
@@ -931,6 +1127,11 @@ def run_item(h, gs: list, seed: int, thorough: bool) -> dict:
                 out["evals"] += 1
                 ck = fclass if fclass != "xor" else ("xor-header" if fault[1] < ref.HEADER_LEN else "xor-body")
                 ck = ck if fclass != "misc" else fault[0]
+                ck = "retire" if g[1] == "retire" else ck
+                known = [(k, x) for k, x in v if k == KNOWN_RELAY_EARLY]
+                if known:          # registered finding: record it, but it neither damages the world nor ends the group
+                    note(known, case)
+                    v = [(k, x) for k, x in v if k != KNOWN_RELAY_EARLY]
                 out["by_class"][ck] = out["by_class"].get(ck, 0) + 1
                 out["outcomes"].add((h, g[1], g[4], g[5], ck, outcome))
                 if v:
@@ -955,6 +1156,9 @@ def run_item(h, gs: list, seed: int, thorough: bool) -> dict:
                     if bad_cases >= MAX_BAD_PER_GROUP:
                         out["aborted"] += 1
                         break
+                if bench is not None and bench.spent:
+                    bench.close()
+                    bench = None
             if fclass == "xor":
                 n = cell_len(h, g[1], g[4], g[5], g[2], g[3])
                 out["positions"] += n
@@ -1027,7 +1231,8 @@ def run(ctx: core.Ctx) -> core.Report:
                 "followed by the untouched original; faults = every byte position of the cell XOR each mask, drop/add "
                 "one trailing byte, circuit-id splice onto a second circuit of the same originator (B) and of another "
                 "originator (C) through the same nodes, five kinds of foreign cells, reflection to the sender, replay "
-                "on another link; distinct_nontrivial = distinct (hops, flow, leg, link, fault class, outcome) tuples "
+                "on another link; plus retirement runs (see 'retire' in the module docstring) and payload shapes; "
+                "distinct_nontrivial = distinct (hops, flow, leg, link, fault class, outcome) tuples "
                 "where outcome is delivered-N / dropped-after-N-hops / accepted-intact(relay_early byte)",
         "samples": [{"bench_hops": h, "first_group": g[0], "groups_in_bench": len(g)} for h, g in items[:2]]
                    + [{"case": [g[1], g[2], g[3], g[4], g[5], f]} for g in (gs[0], gs[-1]) for f in expand(g, ctx.thorough)[:2]],
@@ -1046,6 +1251,11 @@ def run(ctx: core.Ctx) -> core.Report:
         "groups": len(gs),
         "benches": len(items),
         "layer_overhead_bytes": OVH,
+        "retire": {"variants": list(RETIRE_VARIANTS), "offsets_s": sorted({g[5] for g in gs if g[1] == "retire"
+                                                                             and not isinstance(g[5], str)}),
+                   "iterations_after_grace_timer": len({g[5] for g in gs if g[1] == "retire" and isinstance(g[5], str)}),
+                   "runs": sum(1 for g in gs if g[1] == "retire")},
+        "payload_shapes": ["bt", *ref.SHAPES],
         "strict_relay_early": STRICT_RELAY_EARLY,
     }
     assumptions = [
@@ -1055,14 +1265,18 @@ def run(ctx: core.Ctx) -> core.Report:
         "end-to-end (hidden-service) circuits: one topology (swarm hop count 1: D - N3 - rendezvous N2 - S), built by "
         "the real introduction/rendezvous protocol with a stub DHT provider and no PEX community; only raw data flows "
         "in both directions are faulted on the linked circuit (the set-up handshake itself is not faulted)",
-        "the relay_early header byte is not authenticated by any key; flipping it cannot alter the data, and the check "
-        "accepts 'dropped' or 'delivered bit-exact' for that byte only (every other byte must lead to a drop)",
+        "the relay_early header byte is not authenticated by any key: an accepted flip (data bit-exact) is reported under "
+        "its own key, which known_findings.json lists; every other byte must lead to a drop",
+        "retirement runs do not demand that anything is still delivered while a circuit is being removed, only that "
+        "what appears on the wire is properly layered and what is delivered is bit-exact; replies that look like IPv8 "
+        "packets on plain circuits (re-injection at the originator) are not covered; plain-circuit outbound payload "
+        "shapes are limited to those every exit forwards (its own overlay prefix)",
         "payloads of 0 and 1 bytes cannot pass any exit policy (C06); for these two sizes the exit socket's "
         "is_allowed is overridden so that the tunnel itself is still observed; all other payloads are bencoded-dict "
         "shaped and pass the real BitTorrent policy",
         "length-changing faults are limited to dropping/adding one trailing byte; cells shorter than the 29-byte "
         "header or with an empty body are C03's subject",
-        "one fault per flow; the virtual clock does not advance during a case (timeouts are C09's subject)",
+        "one fault per flow; the virtual clock only advances in retirement runs (timeouts are C09's subject)",
         "cell duplication/replay on the same link is not a fault class here: the statement does not promise replay "
         "protection and the code has none (the untouched original is in fact re-delivered after every fault)",
     ]
@@ -1072,7 +1286,7 @@ def run(ctx: core.Ctx) -> core.Report:
 def _case_rank(rp: dict) -> tuple:
     """Prefer small replays: fewer hops, clean before faults, small sizes, low link."""
     c = rp["case"]
-    return (str(rp["h"]), c[1], c[4], repr(c[5]))
+    return (str(rp["h"]), c[1], str(c[3]), str(c[4]), repr(c[5]))
 
 
 def replay(ctx: core.Ctx, data) -> list:  # noqa: ANN001
